@@ -16,7 +16,7 @@ Theorem C14_positions :
   BC_CARDS = BC_DECK /\
   BC_CARD_NAMES = map (fun '(r, s) => const_name r s) SPEC_DECK_RS /\
   BC_CARD_NAMES = CN_CARD_NAMES /\
-  BC_BLANK = 0 /\ BC_ALL = 2 ^ 52 - 1 /\ BC_OVERFLOW = 2 ^ 64 - 2 ^ 52.
+  BC_BLANK = 0.
 Proof. exact positions_ok. Qed.
 
 (* both directions, all 52 cards *)
